@@ -49,7 +49,7 @@ class C15(Machine):
                    "after_normalize", "twins_nonempty", "twin_jump_taken",
                    "walk_restart", "identical_gaussians_or_sticky",
                    "odd_length", "even_length", "rp_twin_surrogates_ok",
-                   "float32_input")
+                   "float32_input", "failed_call_in_between")
     real_vs_stub = {"real": ["Surrogates (all generators, twins, "
                              "normalisation, embedding), RecurrencePlot."
                              "twins / twin_surrogates, the compiled twin and "
@@ -91,6 +91,11 @@ class C15(Machine):
                 op.update(n=o.choice((1, 2, 3)),
                           output=o.choice(("true_amplitudes", "true_spectrum",
                                            "both")))
+            if k == "twin_surr" and o.random() < 0.15:
+                # a call that fails half-way (a delay given as a float is
+                # refused while re-embedding); its outcome is not judged,
+                # what comes after it is
+                op["failing"] = True
             if k in ("twin_surr", "twins", "embed"):
                 op.update(dim=o.choice((1, 2, 3)), delay=o.choice((1, 2)),
                           thr=o.choice((0.01, 0.05, 0.3, 1.0)),
@@ -205,16 +210,27 @@ class C15(Machine):
                         elif op["output"] == "true_amplitudes":
                             self._perm(out, X, step)
                         elif op["output"] == "true_spectrum":
-                            self._spec(out, X, step)
+                            self._spec(out, X, step, full=True)
                         else:
                             self._perm(out[0], X, step)
-                            self._spec(out[1], X, step)
+                            self._spec(out[1], X, step, full=True)
                     elif k in ("twins", "twin_surr"):
                         if k == "twins" and emb is None:
                             continue
                         if k == "twin_surr":
                             if T - (op["dim"] - 1) * op["delay"] < 3:
                                 continue
+                            if op.get("failing"):
+                                bad = C.call(sur.twin_surrogates, op["dim"],
+                                             float(op["delay"]), op["thr"],
+                                             op["min_dist"])
+                                if isinstance(bad, C.Raised):
+                                    R.probe("failed_call_in_between")
+                                    # whatever embedding survived is not
+                                    # known: explicit twins() calls are
+                                    # not judged until the next embedding
+                                    emb = None
+                                    continue
                             emb = [RS.embed(X[i], op["dim"], op["delay"])
                                    for i in range(N)]
                         # twins() works on the embedding that was assigned,
@@ -283,16 +299,16 @@ class C15(Machine):
                       f"step {step}: row {i} is not a permutation of the "
                       f"current original data")
 
-    def _spec(self, out, X, step):
+    def _spec(self, out, X, step, full=False):
         if isinstance(out, C.Raised):
             return self._bad("raises", f"step {step}: {out!r}")
         out = np.asarray(out)
         if out.shape != X.shape:
             return self._bad("shape", f"step {step}: shape {out.shape} vs "
                                       f"{X.shape}")
-        dev = RS.spectrum_dev(out, X)
+        dev = RS.spectrum_dev(out, X, full)
         if not dev <= self._spec_tol:
-            self._bad("amplitude-spectrum",
+            self._bad("amplitude-spectrum" + ("-all" if full else ""),
                       f"step {step}: amplitude spectrum deviates by {dev:.3g} "
                       f"(relative to the largest amplitude) at non-zero, "
                       f"non-Nyquist frequencies")
